@@ -2,7 +2,10 @@ package main
 
 import (
 	"fmt"
+	"go/constant"
 	"go/token"
+	"go/types"
+	"strings"
 
 	"golang.org/x/tools/go/ssa"
 )
@@ -231,4 +234,143 @@ func runC07ReadBuffer(c *Ctx) {
 	if n < 2 {
 		c.Unresolved("C07.B2r", fmt.Sprintf("discarding calls on connection.readBuffer (found %d)", n))
 	}
+}
+
+// runC07Tars (B2t): the tars decoder looks at a package's content only when the whole package has arrived.
+// Tars fields are variable-length and are read by TarsGo's own readers, which the bounds engine cannot see into; what
+// makes the decoder independent of segmentation is the framing test: tars/protocol.TarsRequest answers PACKAGE_FULL only
+// when the announced length is buffered. Clause: in tarsProtocol.Decode every call that receives the buffer or its bytes
+// (other than TarsRequest itself and Len/Bytes) and every return that reports an error lie on the true edge of
+// `status == PACKAGE_FULL`; a prefix of a valid package can then only yield (nil, nil).
+func runC07Tars(c *Ctx, rule string) {
+	fn := c.M("pkg/protocol/xprotocol/tars", "tarsProtocol", "Decode")
+	if fn == nil {
+		c.Unresolved(rule, "tarsProtocol.Decode")
+		return
+	}
+	fk := funcKey(fn)
+	reqs := callsIn(fn, false, func(cc *ssa.CallCommon) bool { return strings.HasSuffix(calleeName(cc), "tars/protocol.TarsRequest") })
+	if len(reqs) != 1 {
+		c.Fail(rule, fk+":framing-test", fn.Pos(), fmt.Sprintf("expected one TarsRequest call in tarsProtocol.Decode, found %d", len(reqs)))
+		return
+	}
+	var status ssa.Value
+	for _, r := range refs(reqs[0].Instr.(ssa.Value)) {
+		if ex, ok := r.(*ssa.Extract); ok && ex.Index == 1 {
+			status = ex
+		}
+	}
+	tp := c.Prog.ImportedPackage("github.com/TarsCloud/TarsGo/tars/protocol")
+	full := int64(-1)
+	if tp != nil {
+		if k, ok := tp.Pkg.Scope().Lookup("PACKAGE_FULL").(*types.Const); ok {
+			full, _ = constant.Int64Val(k.Val())
+		}
+	}
+	if status == nil || full < 0 {
+		c.Unresolved(rule, "TarsRequest status / PACKAGE_FULL constant")
+		return
+	}
+	underStatus := func(b *ssa.BasicBlock, want int64) bool {
+		for _, g := range guardsAt(b) {
+			if bo, ok := g.Cond.(*ssa.BinOp); ok && bo.X == status {
+				if k, isK := constInt(bo.Y); isK && k == want && ((bo.Op == token.EQL && g.True) || (bo.Op == token.NEQ && !g.True)) {
+					return true
+				}
+			}
+		}
+		return false
+	}
+	underFull := func(b *ssa.BasicBlock) bool { return underStatus(b, full) }
+	// PACKAGE_ERROR is decided by TarsRequest on the 4-byte length prefix alone (read from its source): reporting it does
+	// not depend on how much of the package has arrived
+	pkgErr := int64(-1)
+	if k, ok := tp.Pkg.Scope().Lookup("PACKAGE_ERROR").(*types.Const); ok {
+		pkgErr, _ = constant.Int64Val(k.Val())
+	}
+	var buf ssa.Value
+	for _, p := range fn.Params {
+		if isIoBuffer(p.Type()) {
+			buf = p
+		}
+	}
+	fromBuf := func(v ssa.Value) bool {
+		v = stripIface(v)
+		if v == buf {
+			return true
+		}
+		if call, ok := v.(*ssa.Call); ok && call.Common().IsInvoke() && call.Common().Value == buf && call.Common().Method.Name() == "Bytes" {
+			return true
+		}
+		if sl, ok := v.(*ssa.Slice); ok {
+			if call, ok := sl.X.(*ssa.Call); ok && call.Common().IsInvoke() && call.Common().Value == buf {
+				return true
+			}
+		}
+		return false
+	}
+	n := 0
+	ord := ordCounter{}
+	forEachInstr(fn, false, func(f *ssa.Function, in ssa.Instruction) {
+		ci, ok := in.(ssa.CallInstruction)
+		if !ok || in == reqs[0].Instr {
+			return
+		}
+		if _, isDefer := in.(*ssa.Defer); isDefer {
+			return
+		}
+		uses := false
+		for _, a := range ci.Common().Args {
+			if fromBuf(a) {
+				uses = true
+			}
+		}
+		if !uses {
+			return
+		}
+		n++
+		c.Check(rule, ord.next(f, "content-after-full-package"), in.Pos(), underFull(in.Block()), "parses the package only under status == PACKAGE_FULL", "tarsProtocol.Decode hands the buffer to "+shortCallee(ci.Common())+" before the framing test has answered PACKAGE_FULL: tars fields are variable-length, so for some cuts of a valid package the parser runs off the end of what has arrived and Decode reports an error - the connection is closed and the frames on it are lost, depending only on how TCP segmented the stream")
+	})
+	// error exits: the result variable is captured by the deferred recover closure, so it lives in an Alloc; the value a
+	// return reports is the last store to it in the returning block (the recover block itself reports what the closure set
+	// after a panic of a parser, which runs only under PACKAGE_FULL by the clause above)
+	for _, in := range instrsWhere(fn, isReturn) {
+		ret := in.(*ssa.Return)
+		if len(ret.Results) < 2 {
+			continue
+		}
+		v := ret.Results[1]
+		if u, ok := v.(*ssa.UnOp); ok {
+			if al, ok := u.X.(*ssa.Alloc); ok {
+				var last ssa.Value
+				for _, x := range ret.Block().Instrs {
+					if st, isS := x.(*ssa.Store); isS && st.Addr == ssa.Value(al) {
+						last = st.Val
+					}
+				}
+				if last == nil {
+					continue // recover block
+				}
+				v = last
+			}
+		}
+		if isNilConst(v) {
+			continue
+		}
+		n++
+		c.Check(rule, ord.next(fn, "error-after-full-package"), nearestPos(ret), underFull(ret.Block()) || (pkgErr >= 0 && underStatus(ret.Block(), pkgErr)), "an error is reported only for a complete package (or for an invalid length prefix)", "tarsProtocol.Decode can report an error for a package that has not fully arrived: a prefix of a valid package must yield (nil, nil)")
+	}
+	if n < 3 {
+		c.Unresolved(rule, "buffer-consuming calls / error exits in tarsProtocol.Decode")
+	}
+}
+
+func shortCallee(cc *ssa.CallCommon) string {
+	if f := cc.StaticCallee(); f != nil {
+		return f.Name()
+	}
+	if cc.IsInvoke() {
+		return cc.Method.Name()
+	}
+	return "a function value"
 }
